@@ -413,6 +413,8 @@ class Real(Dimension):
         inv_transform = super(Real, self).inverse_transform(Xt)
         if isinstance(inv_transform, list):
             inv_transform = np.array(inv_transform)
+        # rounding in the transform / inverse transform can leave [low, high] by a few ulps
+        inv_transform = np.clip(inv_transform, self.low, self.high)
 
         if self.dtype == float or self.dtype == "float":
             # necessary, otherwise the type is converted to a numpy type
